@@ -253,7 +253,7 @@ Outcome run_sign(const Parsed& p, const RunState& st, bool via_sign_transaction)
     return {complete, ok};
 }
 
-struct Expr { std::string s; bool tap; };
+struct Expr { std::string s; bool tap; bool tri; };   // tri: resources take 3 states (absent/present/wrong), else 2 (absent/present)
 
 std::vector<uint32_t> timelock_values(const std::string& e, const char* frag)
 {
@@ -324,8 +324,10 @@ int main(int argc, char** argv)
         gen_stats[tag + "_p0"] = p0.size();
         gen_stats[tag + "_d1"] = d1.size();
         gen_stats[tag + "_wd1"] = wd1.size();
-        std::vector<std::string> cands;
-        for (auto* v : {&p0, &d1, &wd1}) for (const auto& s2 : *v) if (ok_keys(s2)) cands.push_back(s2);
+        // (expression, 3-state resources?)  quick: 3-state everywhere; thorough: 3-state for atoms and depth-1, 2-state for the larger wrapped/depth-2 sets
+        std::vector<std::pair<std::string, bool>> cands;
+        for (auto* v : {&p0, &d1}) for (const auto& s2 : *v) if (ok_keys(s2)) cands.emplace_back(s2, true);
+        for (const auto& s2 : wd1) if (ok_keys(s2)) cands.emplace_back(s2, !big);
         if (big) {
             // depth 2: a depth-1 binary combinator expression over the quick atoms, combined with a wrapped leaf on key C /
             // older(1) / after(1) / sha256, both operand orders (keys distinct, no first-use-order reduction here)
@@ -351,12 +353,12 @@ int main(int argc, char** argv)
             gen_stats[tag + "_tiny"] = tiny.size();
             gen_stats[tag + "_d2_candidates"] = c2.size();
             gen_stats[tag + "_d2"] = d2.size();
-            for (const auto& s2 : d2) cands.push_back(s2);
+            for (const auto& s2 : d2) cands.emplace_back(s2, false);
         }
-        std::sort(cands.begin(), cands.end());
-        cands.erase(std::unique(cands.begin(), cands.end()), cands.end());
+        std::sort(cands.begin(), cands.end(), [](const auto& x, const auto& y) { return x.first != y.first ? x.first < y.first : x.second > y.second; });
+        cands.erase(std::unique(cands.begin(), cands.end(), [](const auto& x, const auto& y) { return x.first == y.first; }), cands.end());
         gen_stats[tag + "_candidates"] = cands.size();
-        for (auto& s2 : cands) exprs.push_back({s2, tap});
+        for (auto& s2 : cands) exprs.push_back({s2.first, tap, s2.second});
     }
     for (auto& [k, v] : gen_stats) E.set("gen_" + k, v);
     printf("generated %zu valid candidate expressions in %.1fs\n", exprs.size(), vx::elapsed());
@@ -389,15 +391,16 @@ int main(int argc, char** argv)
             std::sort(seqs.begin(), seqs.end()); seqs.erase(std::unique(seqs.begin(), seqs.end()), seqs.end());
             std::sort(lts.begin(), lts.end()); lts.erase(std::unique(lts.begin(), lts.end()), lts.end());
             // all resource states: 3^keys x 3^hashes
+            const uint64_t NS = ex.tri ? 3 : 2;
             uint64_t nstates = 1;
-            for (size_t k = 0; k < keys.size() + has_h1 + has_h2; k++) nstates *= 3;
+            for (size_t k = 0; k < keys.size() + has_h1 + has_h2; k++) nstates *= NS;
             bool any_complete = false;
             for (uint64_t code = 0; code < nstates; code++) {
                 RunState st; Resources r;
                 uint64_t c = code; bool any_wrong = false;
-                for (int k : keys) { st.key[k] = c % 3; c /= 3; r.key[k] = st.key[k] == PRESENT; any_wrong |= st.key[k] == WRONG; }
-                if (has_h1) { st.h1 = c % 3; c /= 3; r.h1 = st.h1 == 1; any_wrong |= st.h1 == 2; }
-                if (has_h2) { st.h2 = c % 3; c /= 3; r.h2 = st.h2 == 1; any_wrong |= st.h2 == 2; }
+                for (int k : keys) { st.key[k] = c % NS; c /= NS; r.key[k] = st.key[k] == PRESENT; any_wrong |= st.key[k] == WRONG; }
+                if (has_h1) { st.h1 = c % NS; c /= NS; r.h1 = st.h1 == 1; any_wrong |= st.h1 == 2; }
+                if (has_h2) { st.h2 = c % NS; c /= NS; r.h2 = st.h2 == 1; any_wrong |= st.h2 == 2; }
                 for (uint32_t sq : seqs) for (uint32_t lt : lts) {
                     st.sequence = sq; st.locktime = lt; r.sequence = sq; r.locktime = lt;
                     const bool sat = ref_sat(ex.s, r);
@@ -478,7 +481,7 @@ int main(int argc, char** argv)
     for (const auto& ex : exprs) { if (k++ % std::max<size_t>(1, exprs.size() / 8) == 0) E.sample(std::string(ex.tap ? "tr: " : "wsh: ") + ex.s); }
     E.rule = std::string("miniscript expressions generated bottom-up (atoms pk_k/pk_h on A,B,C; older(1|4194305), after(1|500000001), sha256, hash160, 0, 1, multi/multi_a on C,D,E; <=2 wrappers from "
              "a s c d v j n t l u on atoms; binary combinators over all wrapped atoms; andor/thresh over singly-wrapped atoms; one wrapper on top") + (big ? "; depth 2 = binary combinators of a depth-1 expression with a singly-wrapped atom, both orders" : "") +
-             "), key-symmetry reduced (first-use order A,B,C); kept iff the tree's descriptor parser accepts wsh(X) resp. tr(K,X) (sane + satisfiable); for each: every state in {absent,present,wrong}^(keys,hashes) x every "
+             "), key-symmetry reduced (first-use order A,B,C); kept iff the tree's descriptor parser accepts wsh(X) resp. tr(K,X) (sane + satisfiable); for each: every state in {absent,present,wrong}^(keys,hashes) (thorough: {absent,present} for the wrapped depth-1 and the depth-2 sets) x every "
              "(nSequence,nLockTime) in {unset, n-1, n} per timelock leaf; real ProduceSignature, then independent VerifyScript(STANDARD) of the finished tx; reference = boolean evaluation of the expression; templates: "
              "pk/pkh/wpkh/sh-wpkh/multi k-of-n (n<=4) in bare/sh/wsh/sh-wsh/tr multi_a, tr key path, tr 2 leaves x every key subset via SignTransaction and ProduceSignature; distinct_nontrivial = descriptors completed at least once";
     E.assume("the tree's miniscript parser/type system is used as generator filter only (which expressions are in scope), never as the oracle");
